@@ -556,13 +556,15 @@ fn commitment_signed_probe(a: &mut Vec<i128>) -> String {
 	}
 }
 
-/// preimage_after_conf_reorg_probe
+/// preimage_after_conf_reorg_probe <k> <d>
 /// Node 0's current commitment, holding a 3 000 sat HTLC offered to node 1, confirms on node 1's chain at height H;
-/// only THEN does node 1 learn the preimage (claim_funds, the fulfil never reaches node 0), so its monitor builds the
-/// HTLC claim from the funding-spend entry still awaiting its confirmation threshold. Then block H is disconnected.
-/// Output: 1 if a claim for the HTLC output was tracked before the reorg, and 1 if one is still tracked after it
-/// (a claim on an output of a transaction that is no longer in the chain must be dropped: expected `1 0`).
-fn preimage_after_conf_reorg_probe(_a: &mut Vec<i128>) -> String {
+/// k more blocks are connected and only THEN does node 1 learn the preimage (claim_funds, the fulfil never reaches
+/// node 0), so its monitor builds the HTLC claim from the funding-spend entry still awaiting its confirmation
+/// threshold. Then d blocks are disconnected. Output: 1 if a claim for the HTLC output was tracked before the reorg,
+/// and 1 if one is still tracked after it. The claim spends an output of the transaction confirmed at H: it must
+/// survive iff that block is still in the chain (d <= k).
+fn preimage_after_conf_reorg_probe(a: &mut Vec<i128>) -> String {
+	let (k, d) = (a[0] as u32, a[1] as u32);
 	let chanmon_cfgs = create_chanmon_cfgs(2);
 	let node_cfgs = create_node_cfgs(2, &chanmon_cfgs);
 	let node_chanmgrs = create_node_chanmgrs(2, &node_cfgs, &[None, None]);
@@ -580,6 +582,9 @@ fn preimage_after_conf_reorg_probe(_a: &mut Vec<i128>) -> String {
 	let vout = commitment.output.iter().position(|o| o.value.to_sat() == 3_000).expect("HTLC output") as u32;
 	let txid = commitment.compute_txid();
 	mine_transaction(&nodes[1], &commitment);
+	if k > 0 {
+		connect_blocks(&nodes[1], k);
+	}
 	let _ = nodes[1].node.get_and_clear_pending_msg_events();
 	let _ = nodes[1].node.get_and_clear_pending_events();
 	nodes[1].node.claim_funds(preimage);
@@ -590,10 +595,61 @@ fn preimage_after_conf_reorg_probe(_a: &mut Vec<i128>) -> String {
 		lightning::chain::channelmonitor::verif_hooks::tracked_claims(&mon).iter().any(|(t, o, _, _)| *t == txid && *o == vout)
 	};
 	let before = tracked(&nodes);
-	disconnect_blocks(&nodes[1], 1);
+	if d > 0 {
+		disconnect_blocks(&nodes[1], d);
+	}
 	let after = tracked(&nodes);
 	core::mem::forget(nodes);
 	format!("{} {}", before as u8, after as u8)
+}
+
+/// late_preimage_same_hash_probe
+/// Node 0 pays node 1 with a two-part MPP payment whose parts (3 000 sat each) travel over the same channel, so node
+/// 0's commitment carries two HTLC outputs with the same payment hash. That commitment confirms on node 1's chain and
+/// only then does node 1 learn the preimage. Output: how many of the two HTLC outputs node 1's monitor then has a
+/// claim for.
+fn late_preimage_same_hash_probe(_a: &mut Vec<i128>) -> String {
+	use lightning::ln::channelmanager::PaymentId;
+	use lightning::ln::outbound_payment::RecipientOnionFields;
+	const PART_MSAT: u64 = 3_000_000;
+	let chanmon_cfgs = create_chanmon_cfgs(2);
+	let node_cfgs = create_node_cfgs(2, &chanmon_cfgs);
+	let node_chanmgrs = create_node_chanmgrs(2, &node_cfgs, &[None, None]);
+	let nodes = create_network(2, &node_cfgs, &node_chanmgrs);
+	*nodes[0].connect_style.borrow_mut() = ConnectStyle::FullBlockViaListen;
+	*nodes[1].connect_style.borrow_mut() = ConnectStyle::FullBlockViaListen;
+	let chan_id = create_announced_chan_between_nodes_with_value(&nodes, 0, 1, 1_000_000, 0).2;
+	let (route, payment_hash, payment_preimage, payment_secret) = lightning::get_route_and_payment_hash!(&nodes[0], nodes[1], PART_MSAT);
+	// two separate sends with the same hash / secret / total: for the recipient, the two parts of one payment
+	for idx in 0..2u8 {
+		let onion = RecipientOnionFields::secret_only(payment_secret, 2 * PART_MSAT);
+		nodes[0].node.send_payment_with_route(route.clone(), payment_hash, onion, PaymentId([42 + idx; 32])).unwrap();
+		check_added_monitors(&nodes[0], 1);
+		let mut events = nodes[0].node.get_and_clear_pending_msg_events();
+		if events.len() != 1 {
+			return format!("error {} message events for part {}", events.len(), idx);
+		}
+		pass_along_path(&nodes[0], &[&nodes[1]], 2 * PART_MSAT, payment_hash, Some(payment_secret), events.remove(0), idx == 1, None);
+	}
+	let commitment = {
+		let mon = nodes[0].chain_monitor.chain_monitor.get_monitor(chan_id).unwrap();
+		mon.unsafe_get_latest_holder_commitment_txn(&nodes[0].logger)[0].clone()
+	};
+	let txid = commitment.compute_txid();
+	let vouts: Vec<u32> = commitment.output.iter().enumerate().filter(|(_, o)| o.value.to_sat() == PART_MSAT / 1000).map(|(i, _)| i as u32).collect();
+	if vouts.len() != 2 {
+		return format!("error {} HTLC outputs", vouts.len());
+	}
+	mine_transaction(&nodes[1], &commitment);
+	let _ = nodes[1].node.get_and_clear_pending_msg_events();
+	let _ = nodes[1].node.get_and_clear_pending_events();
+	nodes[1].node.claim_funds(payment_preimage);
+	let mon = nodes[1].chain_monitor.chain_monitor.get_monitor(chan_id).unwrap();
+	let claims = lightning::chain::channelmonitor::verif_hooks::tracked_claims(&mon);
+	let n = vouts.iter().filter(|v| claims.iter().any(|(t, o, _, _)| *t == txid && o == *v)).count();
+	drop(mon);
+	core::mem::forget(nodes);
+	format!("{}", n)
 }
 
 fn main() {
@@ -623,6 +679,7 @@ fn main() {
 			"raa_probe" => raa_probe(&mut args),
 			"commitment_signed_probe" => commitment_signed_probe(&mut args),
 			"preimage_after_conf_reorg_probe" => preimage_after_conf_reorg_probe(&mut args),
+			"late_preimage_same_hash_probe" => late_preimage_same_hash_probe(&mut args),
 			_ => format!("error unknown function {}", name),
 		}));
 		match r {
